@@ -1268,6 +1268,15 @@ def _progs_f_misc(reg):
            ]
     reg.add("linalg.params", ["lax/triangular_solve.py::conjugate_a", "lax/cholesky.py::", "numpy/linalg_inv.py::rows not in", "numpy/linalg_solve.py::rows not in",
                               "numpy/linalg_norm.py::", "numpy/polyfit.py::", "numpy/roots.py::", "lax/eigh.py::n_rows > 2", "lax/qr.py::", "lax/svd.py::"], [spd, F(3, 2)], vs)
+    # ---- defects that only showed inside control-flow bodies, kept as explicit top-level programs so that the quick tier sees them
+    reg.add("nested.dtype_contexts", ["numpy/where.py::", "lax/dot_general.py::"], [F(3, 4), I((3, 4), -7, 8)], [
+        ("where int literal,fori body", lambda x, n: lax.fori_loop(0, 2, lambda i, c: jnp.where(c > 0, c, 2) * 0.5, x)),
+        ("where int literal,cond branch", lambda x, n: lax.cond(x[0, 0] > -9.0, lambda a: jnp.where(a > 0, a, 2), lambda a: a, x)),
+        ("where int literal,scan body", lambda x, n: lax.scan(lambda c, r: (c, jnp.where(r > 0, r, 3)), 0.0, x)[1]),
+        ("dot_general int32,preferred=float32,cond branch", lambda x, n: lax.cond(
+            x[0, 0] > -9.0, lambda a: lax.dot_general(a, a, (((1,), (1,)), ((0,), (0,))), preferred_element_type=jnp.float32),
+            lambda a: jnp.zeros((3,), jnp.float32), n)),
+    ], place=False)
     # ---- converter options: layout flags on both sides of the rank / range guards
     nchw = [("rank4 in", lambda x, y: (x * 2.0 + 1.0, y), None, {"inputs_as_nchw": [0]}),
             ("rank4 in+out", lambda x, y: (x * 2.0 + 1.0, y), None, {"inputs_as_nchw": [0], "outputs_as_nchw": [0]}),
